@@ -34,13 +34,13 @@ class Renderer(object):
         self.nv = 0
         self.sv = 0
 
-    def num(self, n, allow_ref=True, force_sign=False):
+    def num(self, n, allow_ref=True, force_sign=False, no_plus=False):
         rng = self.rng
         if self.plain or not allow_ref or rng.random() < 0.75:
             s = str(abs(n))
             if n < 0:
                 return '-' + s
-            return ('+' + s) if (force_sign or (rng.random() < 0.08 and not self.plain)) else s
+            return ('+' + s) if (force_sign or (rng.random() < 0.08 and not self.plain and not no_plus)) else s
         sign = ''
         v = n
         if n < 0 or force_sign:
@@ -80,7 +80,7 @@ class Renderer(object):
         if c['c'] == 'M':
             if c['rel']:
                 return up(pre + 'M') + sp + self.num(c['x'], force_sign=True) + sp + ',' + sp + self.num(c['y'])
-            return up(pre + 'M') + sp + self.num(c['x'], allow_ref=False) + ',' + sp + self.num(c['y'])
+            return up(pre + 'M') + sp + self.num(c['x'], allow_ref=False, no_plus=True) + ',' + sp + self.num(c['y'])
         if c['c'] in 'SC':
             return up(c['c']) + sp + self.num(c['n'])
         if c['c'] == 'X':
@@ -169,7 +169,8 @@ class Tests(object):
         if len(text) > 240 or sum(len(p) for p in r.pre) > 200:
             r = Renderer(self.rng, plain=True)
             text = r.text(cmds)
-        self.events.append({'op': 'setpos', 'x': start[0], 'y': start[1], 'col': cmds[0]['n'] if cmds and cmds[0]['c'] == 'C' else self.cols[0]})
+        self.events.append({'op': 'setpos', 'x': start[0], 'y': start[1],
+                            'col': cmds[0]['n'] if cmds and cmds[0]['c'] == 'C' and not oor else self.cols[0]})
         self.events.append({'op': 'draw', 'cmds': cmds})
         self.tests.append({'start': start, 'cmds': cmds, 'text': text, 'pre': r.pre, 'cell': cell, 'ev': len(self.events) - 1,
                            'label': label, 'oor': oor})
@@ -221,6 +222,9 @@ class Tests(object):
                 sx, sy = t['start']
                 lines = [list(s) for s in m['segs']] if m else []
                 e['lines'] = lines
+                if any(s[4] > 255 for s in lines):
+                    e['noref'] = True
+                    continue
                 stmts = ['PSET (%d,%d),%d' % (sx, sy, self.events[t['ev'] - 1]['col'])]
                 stmts += ['LINE (%d,%d)-(%d,%d),%d' % tuple(s) for s in lines]
                 buf = []
@@ -330,30 +334,39 @@ def run(ctx):
         for c in (g.nattr, g.nattr + 1, 255, 300):
             T.add((40, 40), [{'c': 'C', 'n': c}, {'c': 'R', 'n': 5, 'b': False, 'nn': False}, {'c': 'D', 'n': 3, 'b': False, 'nn': False}],
                   cells[0], plain=True, label='colour-out-of-range', oor=True)
-        # pass 1: model segments (compile)
-        comp = ctx.validate('Draw_Trace', [{k: v for k, v in e.items() if k in ('op', 'pos', 'scale', 'col', 'x', 'y', 'cmds')} for e in T.events],
-                            header={'compile': True}, name='compile')
-        model = {i - 1: payload for (i, payload) in comp}
-        T.execute(model)
         all_tests.append(T)
-        T.close()
-    ctx.cov['impl_wall_s'] = round(time.time() - t0, 1)
-    # pass 2: judge
-    labels = {}
+    ctx.cov['build_wall_s'] = round(time.time() - t0, 1)
+    # pass 1: model segments (compile), one TLC run over the events of all modes (each mode starts with a reset event)
+    offs, allev = [], []
     for T in all_tests:
-        keep = ('op', 'pos', 'scale', 'col', 'x', 'y', 'cmds', 'ok', 'kind', 'p0', 'p1', 'lines', 'marks', 'diff', 'clip')
-        verdicts = ctx.validate('Draw_Trace', [{k: e[k] for k in keep if k in e} for e in T.events], header={'compile': False}, name='judge')
+        offs.append(len(allev))
+        allev += T.events
+    comp = ctx.validate('Draw_Trace', [{k: v for k, v in e.items() if k in ('op', 'pos', 'scale', 'col', 'x', 'y', 'cmds')} for e in allev],
+                        header={'compile': True}, name='compile')
+    model = {i - 1: payload for (i, payload) in comp}
+    t1 = time.time()
+    for T, off in zip(all_tests, offs):
+        T.execute({i - off: m for i, m in model.items() if off <= i < off + len(T.events)})
+        T.close()
+    ctx.cov['impl_wall_s'] = round(time.time() - t1, 1)
+    # pass 2: judge
+    keep = ('op', 'pos', 'scale', 'col', 'x', 'y', 'cmds', 'ok', 'kind', 'p0', 'p1', 'lines', 'marks', 'diff', 'clip', 'noref')
+    verdicts = ctx.validate('Draw_Trace', [{k: e[k] for k in keep if k in e} for e in allev], header={'compile': False}, name='judge')
+    labels = {}
+    for T, off in zip(all_tests, offs):
         ctx.cov['traces_validated_against_impl'] += 1
         byev = {t['ev']: t for t in T.tests}
         for t in T.tests:
             labels[t['label']] = labels.get(t['label'], 0) + 1
             ctx.count([T.tag, t['start'], t['cmds']], nontrivial=any(c['c'] in MOVES or c['c'] in 'MX' for c in t['cmds']))
             e = T.events[t['ev']]
-            if 'lines_failed' in e:
+            if 'lines_failed' in e and not t['oor']:
                 raise core.MachineryError('reference LINE statements failed: %r for %s' % (e['lines_failed'], e['lines']))
         for (i, clause) in verdicts:
-            e = T.events[i - 1]
-            t = byev.get(i - 1, {})
+            if not off <= i - 1 < off + len(T.events):
+                continue
+            e = T.events[i - 1 - off]
+            t = byev.get(i - 1 - off, {})
             ctx.reject('C33 %s [%s %s] %s -> POINT(0/1)=(%s,%s) marks=%s ndiff=%s %s' % (
                 clause, T.tag, t.get('label'), e.get('stmt', ''), e.get('p0'), e.get('p1'), e.get('marks'), e.get('ndiff'), e.get('detail', '')),
                 key={'clause': clause, 'label': t.get('label'), 'mode': T.tag, 'colour_in_range': not t.get('oor', False),
